@@ -57,7 +57,7 @@ RULE = ("kernel: every (box, point, source, style, port) with proper boxes havin
         "visible edge end translated onto the origin, and 3 (thorough 6) large odd vectors 2^k+1 per diagram, for ALL corpus models")
 ASSUMPTIONS = [
     "floats: the model is exact over Q; implementation answers are compared exactly when they are exactly the model's rational, else within 1e-9 (kernel) / 1e-6 (parser)",
-    "the atan2-based side choice of Box.__vector_snap_closest is modelled by its sign form; on the model-declared ties (source on a diagonal of the box) any of the four side intersections is accepted",
+    "the atan2-based side choice of Box.__vector_snap_closest is modelled by its sign form; on the model-declared ties (source on a diagonal of the box) the intersection with either neighbouring side that faces the source is accepted (both are the corner)",
     "of the parser the edge chain (aird/_edge_factories.generic_factory for an edge between two boxes: bend point decoding, default routes, snaptarget) and box nesting (_box_factories.generic_factory + snap_to_parent down a tree of boxes with positive stored sizes) are modelled; XML walking, labels, text extents (PIL), automatic box sizes, StackingBox, edges that end on edges, and filters are not: they are covered by the metamorphic run on the corpus models only (C17 stays partial)",
     "math.isclose(a, b) in snap_manhattan/snap_tree is a = b in the model; snap_oblique's `abs(delta) >= 1` (atan2) is a parameter of the model (theorems hold for every decision function), instantiated in the driver by cos^2(angle) <= c for a rational c within 1e-9 of cos^2(1); the driver declares the inputs on which these differ from the float code (none occurred) and the harness does not compare them",
     "box nesting: a child clamped to a non-positive size component is outside the model (Err.degenerate; the real size property then recomputes it from text extents); a 10x10 port in a parent not larger than 6 px (no proper mid box) is outside the port theorem; both are counted in the evidence, not judged",
@@ -1212,7 +1212,7 @@ def edge_end_monitor(rig: EdgeRig, c: dict, res, v) -> list[tuple[str, str]]:
 
 ROBUST_CLASSES = {  # family -> class in Model/GeomSites.lean (checked against the driver's `sites` answer)
     "oblique:containment": "jumpTol", "oblique:direction-sign": "agree", "closest:diagonal": "agree",
-    "closest:diagonal-top-right": "jump", "oblique:along-border": "jump",
+    "oblique:along-border": "jump",
     "oblique:point-eq-source": "jump", "oblique:source-at-centre": "jump", "closest:source-at-centre": "jump",
     "manhattan:range-border": "jump", "manhattan:axis-tie": "jump", "tree:direction-level": "jump", "tree:zero-direction": "jump",
 }
@@ -1267,7 +1267,9 @@ def robust_bases(ctx: Ctx) -> list[dict]:
         for c in [(bx, by), (bx + bw, by), (bx, by + bh), (bx + bw, by + bh)]:
             add("oblique:direction-sign", box, (cx, cy), (c[0] + 2 * (c[0] - cx), c[1] + 2 * (c[1] - cy)), "oblique", sub="through-corner")
             kk = rng.choice([2, 3])
-            add("closest:diagonal-top-right" if c == (bx + bw, by) else "closest:diagonal", box, (cx + kk * (c[0] - cx), cy + kk * (c[1] - cy)), (cx + kk * (c[0] - cx), cy + kk * (c[1] - cy)), "oblique")
+            # (the diagonal through the top-right corner was the declared jump `closest:diagonal-top-right` until /repo `alpha <= angle`)
+            add("closest:diagonal", box, (cx + kk * (c[0] - cx), cy + kk * (c[1] - cy)), (cx + kk * (c[0] - cx), cy + kk * (c[1] - cy)), "oblique",
+                sub="top-right" if c == (bx + bw, by) else "")
         add("oblique:point-eq-source", box, pin, pin, "oblique")
         add("oblique:source-at-centre", box, (bx - k, by - k * u), (cx, cy), "oblique")
         add("closest:source-at-centre", box, (cx, cy), (cx, cy), "oblique")
@@ -1292,7 +1294,7 @@ def robust_variants(c: dict) -> list[tuple[str, dict]]:
                 v = dict(c)
                 v[key] = list(c[key])
                 v[key][i] = math.nextafter(c[key][i], d)
-                if key == "s" and c["p"] == c["s"] and c["fam"] in ("closest:diagonal", "closest:diagonal-top-right", "closest:source-at-centre"):
+                if key == "s" and c["p"] == c["s"] and c["fam"] in ("closest:diagonal", "closest:source-at-centre"):
                     v["p"] = list(v["s"])  # families about `source=None`: point and source move together
                 res.append((f"ulp:{key}{'xy'[i]}{'+' if d > 0 else '-'}", v))
     b = c["box"]
@@ -1367,16 +1369,17 @@ def robustness(ctx: Ctx, out: Outcome, diagram) -> None:
             out.find(sig, f"[{fam} {name}] Box({c['box'][:2]}, {c['box'][2:]}{', port=True' if c['port'] else ''}).vector_snap({c['p']}, source={c['s']}, style={c['style']}) -> {res[1]}", rep)
             out.hit("monitor:" + sig.split("|", 1)[1])
         scale = max(1.0, abs(c["box"][0]) + c["box"][2], abs(c["box"][1]) + c["box"][3])
+        if fam == "closest:diagonal" and res[0] == "r":
+            # independent statement (base and every variant): the closest-side snap of a source outside the box ends on the side facing it
+            cxf, cyf = c["box"][0] + c["box"][2] / 2, c["box"][1] + c["box"][3] / 2
+            if (res[1][0] - cxf) * (c["s"][0] - cxf) + (res[1][1] - cyf) * (c["s"][1] - cyf) <= 0:
+                which = "source-on-top-right-diagonal" if c.get("sub") == "top-right" else "source-on-diagonal"
+                out.find(f"Box.vector_snap|closest|far-corner|{which}",
+                         f"[{name}] Box({c['box'][:2]}, {c['box'][2:]}).vector_snap({c['p']}) -> {res[1]}: a source on (or one ulp beside) the diagonal through a corner is snapped to "
+                         "a side that does not face it (the opposite corner)", rep)
         if name == "base":
             base_res[bi] = res
             st["bases"] += 1
-            if fam == "closest:diagonal-top-right" and res[0] == "r":
-                # independent statement: the closest-side snap of a source outside the box ends on the side facing it
-                cxf, cyf = c["box"][0] + c["box"][2] / 2, c["box"][1] + c["box"][3] / 2
-                if (res[1][0] - cxf) * (c["s"][0] - cxf) + (res[1][1] - cyf) * (c["s"][1] - cyf) < 0:
-                    out.find("Box.vector_snap|closest|far-corner|source-on-top-right-diagonal",
-                             f"Box({c['box'][:2]}, {c['box'][2:]}).vector_snap({c['p']}) -> {res[1]}: a source exactly on the diagonal beyond the top-right corner is snapped to the "
-                             "opposite (bottom-left) corner; one ulp beside the diagonal it is snapped to the top-right corner", rep)
         else:
             st["variants"] += 1
             b0 = base_res[bi]
